@@ -187,6 +187,64 @@ class Scene:
     def _Rename(self, h, name, new, **_):
         self._first_data(h, name).name = new
 
+    def _RemovePlainChild(self, via, **_):
+        child = self.group.comments
+        if child is None:
+            raise LookupError("harness: the group has no plain child")
+        if via == "ws":
+            self.ws.remove_entity(child)
+        else:
+            self.group.remove_children([child])
+
+    def _CopyEdit(self, h, name="", **_):
+        """Copy the group to another workspace, edit the COPY, then ask the SOURCE whether it is still whole."""
+        from geoh5py import Workspace
+        self.n_copies += 1
+        path = self.path.replace(".geoh5", f"_edit{self.n_copies}.geoh5")
+        other = Workspace.create(path, version={20: 2.0, 21: 2.1}[self.version])
+        try:
+            copy = self.group.copy(parent=other, name=f"edit{self.n_copies}")
+            hole = [c for c in copy.children if c.name == f"H{h}"][0]
+            if name == "":
+                copy.remove_children([hole])
+            else:
+                hole.remove_children([hole.get_data(name)[0]])
+        finally:
+            other.close()
+        ids = [x.decode() if isinstance(x, bytes) else str(x) for x in self.group.concatenated_object_ids or []]
+        recs = {r.get("ID") for r in self.group.concatenated_attributes["Attributes"]}
+        wanted = {_brace(self.hole_uid[x]) for x in self.holes}
+        if not wanted <= set(ids) or not wanted <= recs:
+            raise RuntimeError("source changed: an edit of the copy removed object ids / records of the source")
+        if name != "":
+            src = self._first_data(h, name)
+            if _brace(src.uid) not in recs or f"Property:{name}" not in self.group.get_concatenated_attributes(self.hole_uid[h]):
+                raise RuntimeError("source changed: an edit of the copy removed a data record / key of the source")
+
+    def _AddObjectData(self, h, vals, new=None, **_):
+        try:
+            self.hole(h).add_data({"o": {"association": "OBJECT", "values": _floats(vals)}})
+        finally:
+            if new:
+                self.register_new(h, {"o": new})
+
+    def _AddBadData(self, h, name, depths, new=None, **_):
+        try:  # INTEGER data given decimals: the constructor raises after the parent was set
+            self.hole(h).add_data({name: {"depth": _floats(depths), "values": np.array([0.5] * len(depths)), "type": "INTEGER"}})
+        finally:
+            if new:
+                self.register_new(h, {name: new})
+
+    def _ReopenRemoveHole(self, h, **_):
+        from geoh5py import Workspace
+        self.ws.close()
+        self.ws = Workspace(self.path)
+        self.group = self.ws.get_entity(self.group_uid)[0]
+        by_uid = {c.uid: c for c in self.group.children}
+        self.holes = {x: by_uid[uid] for x, uid in self.hole_uid.items() if uid in by_uid}
+        self.group.remove_children([self.holes[h]])  # nothing of the hole has been read in this session
+        self.holes.pop(h)
+
     def _Protect(self, h, name="", **_):
         (self.hole(h) if name == "" else self._first_data(h, name)).allow_delete = False
 
@@ -294,6 +352,13 @@ class Scene:
                 rec["pgs"] = outcome_of(exc)
             out[h] = rec
         return out
+
+    def observe_plain(self):
+        """(comment in group.children, layout problems of the file concerning the group's containers)"""
+        from . import h5snap
+        live = self.group.comments is not None
+        problems = [p for p in h5snap.wellformed(h5snap.snapshot(self.ws.geoh5)) if str(self.group_uid) in p]
+        return live, problems
 
     def observe_group_children(self):
         return sorted(self.slot_of(_brace(c.uid)) for c in self.group.children if hasattr(c, "get_data_list"))
